@@ -27,6 +27,7 @@ static _Atomic int receiving[RT_MAX_THREADS];
 /* two multi-waiter signals (include/fiber_signal.h, fiber_multi_signal_*): any fiber may wait, any fiber may raise */
 static fiber_multi_signal_t msig[2];
 static fiber_rwlock_t rwl;
+static _Atomic int pflag[2];    /* ops 27/28: a flag one fiber polls with fiber_yield() and another sets */
 static fiber_barrier_t bar2;   /* count 2: used by exactly two fibers, equally often (the generator guarantees it) */
 static _Atomic int rw_readers, rw_writers;
 static _Atomic long ms_raised[2], ms_returned[2];
@@ -142,6 +143,8 @@ static void* fiber_prog(void* param) {
         if (fiber_join(j, &jr) != FIBER_SUCCESS || jr != (void*)(intptr_t)1) r = 79;
         break;
       }
+      case 27: { int n = 0; while (!atomic_load(&pflag[a]) && n++ < 3000) fiber_yield(); break; }   /* yield-polling loop */
+      case 28: atomic_store(&pflag[a], 1); break;
       case 24: if (!held[0] && !held[1]) fiber_barrier_wait(&bar2); break;   /* ping-pong through a two-party barrier */
       case 23: {  /* create a child and detach it LATE: after a yields it may have finished and be parking for a joiner */
         fiber_t* c = fiber_create(20000, &child_prog, NULL);
@@ -208,6 +211,7 @@ static void main_fiber(void) {
   fiber_semaphore_init(&sem, 0);
   fiber_rwlock_init(&rwl); rw_readers = 0; rw_writers = 0;
   fiber_barrier_init(&bar2, 2);
+  pflag[0] = 0; pflag[1] = 0;
   for (int w = 0; w < 2; w++) { fiber_multi_signal_init(&msig[w]); ms_raised[w] = 0; ms_returned[w] = 0; ms_waiting[w] = 0; }
   for (int f = 0; f < nf; f++) { fiber_signal_init(&sigs[f]); chans[f] = fiber_bounded_channel_create(2, &sigs[f]); receiving[f] = 0; }
   /* optional 3rd parameter: the main fiber's FIRST blocking call is a sleep (1: before it creates the fibers, 2: right
